@@ -112,7 +112,12 @@ static size_t vf_input_fn(void * state, soxr_in_t * data, size_t requested)
   if (fn_failed) ++fn_calls_after_fail;
   if (requested > fn_max_request) fn_max_request = requested;
   VF_ASSERT(requested >= 1, "the input function is never asked for 0 frames: its 0 reply would be taken for end-of-input (C05/C18)");
-  if (k >= VF_FNCALLS || in_fn_kind[k] == 1) { fn_failed = 1; *data = 0; return 0; }
+  if (k >= VF_FNCALLS || in_fn_kind[k] == 1) {      /* failure: *data == NULL - canonically with length 0 (soxr.h table), but a stale / requested
+                                                     * length next to the NULL pointer is failure too (soxr.c: "if (!in)"): any length <= requested */
+    n = k < VF_FNCALLS? in_fn_ret[k] : 0;
+    VF_ASSUME(n <= requested);
+    fn_failed = 1; *data = 0; return n;
+  }
   if (in_fn_kind[k] == 2) { fn_ended = 1; return 0; }      /* data left as set by the library (non-null) */
   n = in_fn_ret[k];
   VF_ASSUME(n >= 1 && n <= requested && n <= VF_CAP);
